@@ -229,6 +229,16 @@ theorem tree_parent {E F : List (Nat × Nat)} {s : Nat} :
       · exact Or.inl a
       · right; rw [hasKey_cons]; simp [a]
 
+theorem tree_key_ne {E F : List (Nat × Nat)} {s : Nat} :
+    ∀ {rest : List (Nat × Nat)}, Tree E F s rest → ∀ x, hasKey x rest = true → x ≠ s
+  | [], _, x, hx => by simp [hasKey_nil] at hx
+  | (w0, v0) :: rest, ht, x, hx => by
+    rw [hasKey_cons] at hx
+    by_cases h : x = w0
+    · rw [h]; exact ht.1
+    · have : (x == w0) = false := by simpa using h
+      exact tree_key_ne ht.2.2.2.2 x (by simpa [this] using hx)
+
 /-- induction along the tree -/
 theorem tree_induct {E F : List (Nat × Nat)} {s : Nat} (Q : Nat → Prop) (hs : Q s) :
     ∀ {rest : List (Nat × Nat)}, Tree E F s rest →
